@@ -577,7 +577,7 @@ class Rope:
             if isinstance(p, (Num, Tok)):
                 out.append(p.recode(op, 'ascii'))
                 continue
-            ok = core.cur().fresh_bool('ascii_ok')
+            ok = _ascii_ok(p)
             if not ok:
                 if op == 'd':
                     raise UnicodeDecodeError('ascii', b'\xff', 0, 1, 'ordinal not in range(128) [abstract]')
@@ -832,6 +832,40 @@ def _peek_eq_lit(p, off, lit_vals):
 
 
 PEEK_LIMIT = 24
+
+
+ASCII_ELEMENTWISE = [False]          # switched on by the obligation that needs exact ASCII-ness of short pieces of symbolic length
+core.PATH_RESET.append(lambda: ASCII_ELEMENTWISE.__setitem__(0, False))
+
+
+def _ascii_ok(p):
+    """is this opaque piece pure ASCII?  One outcome per (source, range): short pieces are decided by their elements (peek table), longer
+    ones by a memoised nondeterministic outcome that the witness builder honours (a byte >= 0x80 at the end of a range that is not
+    ASCII, none inside a range that is)"""
+    if not isinstance(p, Opq):
+        return core.cur().fresh_bool('ascii_ok')
+    L = p.length()
+    if ASCII_ELEMENTWISE[0] and not isinstance(L, int) and not p.chain and core.cur().must(L <= 24):
+        L = core.cur().concretize(L, limit=32)          # short piece of symbolic length: decided element by element as well (opt-in: forks)
+    if isinstance(L, int) and L <= (24 if ASCII_ELEMENTWISE[0] else 8) and not p.chain:
+        return s_and(*[p.src.peek(p.lo + i, ()) < 128 for i in range(L)]) if L else True
+    memo = p.src.__dict__.setdefault('ascii_ranges', [])
+    for lo, hi, chain, b in memo:
+        if chain == p.chain and same_int(lo, p.lo) and same_int(hi, p.hi):
+            return b
+    b = core.cur().fresh_bool('ascii_ok_%s' % p.src.name)
+    # a range inside an ASCII range is ASCII; a range containing a non-ASCII range is not (for bounds that compare syntactically)
+    for lo, hi, chain, b2 in memo:
+        if chain != p.chain:
+            continue
+        d1, d2 = core.mk_int(core.lift(p.lo) - core.lift(lo)), core.mk_int(core.lift(hi) - core.lift(p.hi))
+        if isinstance(d1, int) and isinstance(d2, int):
+            if d1 >= 0 and d2 >= 0:
+                core.assume(core.s_implies(b2, b))          # new range inside an old one
+            elif d1 <= 0 and d2 <= 0:
+                core.assume(core.s_implies(b, b2))          # old range inside the new one
+    memo.append((p.lo, p.hi, p.chain, b))
+    return b
 
 
 def seg_eq(p, a, q, b, m):
@@ -1178,6 +1212,15 @@ def concretize_source(src, ev):
                 val = tab.index(val)
             if 0 <= a <= b <= n:
                 data[a:b] = bytes([val]) * (b - a)
+        rng = [(ev(lo), ev(hi), ev(b)) for lo, hi, chain, b in src.__dict__.get('ascii_ranges', []) if not chain]
+        for a, b, ok in rng:
+            if not ok and 0 <= a < b <= n:
+                data[b - 1] = 0xe9
+        for a, b, ok in rng:
+            if ok and 0 <= a <= b <= n:
+                for i in range(a, b):
+                    if data[i] >= 128:
+                        data[i] = 0x41
         for pos, v in src.__dict__.get('u32s', []):
             p = ev(pos)
             if 0 <= p and p + 4 <= n:
